@@ -2,9 +2,11 @@
 import numpy as np
 
 
-def decode(text, has_md_column=False):
-    """Header = last '#' line before the first data line. Returns
-    (obs_ids, samp_ids, D, md_name, md_values)."""
+def decode(text, has_md_column=False, plain_header=False):
+    """Header = last '#' line before the first data line; with
+    `plain_header` (the caller named the id column without a '#') the first
+    line after the '#' lines. Returns (obs_ids, samp_ids, D, md_name,
+    md_values)."""
     lines = text.split('\n')
     header = None
     data = []
@@ -15,6 +17,10 @@ def decode(text, has_md_column=False):
             header = ln
             continue
         data.append(ln)
+    if plain_header:
+        if not data:
+            raise ValueError('no header line')
+        header = data.pop(0)
     if header is None:
         raise ValueError('no header line')
     h = header.split('\t')
